@@ -78,6 +78,13 @@ def register(reg):
   c.ensures('declarations_kept', 'self._declarations is old(self._declarations) and content(self._declarations) == old(content(self._declarations))')
   c.modifies('self._loaded_values')
 
+  register_loading(reg)
+  register_loading2(reg)
+  from pyvc.opaque import effectful
+  # the user function wrapped by save_and_restore may load / reset configuration and mutate any pre-existing container
+  reg.opaque['wrapped_function'] = effectful('wrapped_function', 'val', may_raise=('Exception', 'BaseException'),
+                                             havoc=('*pre-existing',))
+
   for variant, kw in (('no default', {}), ('with default', {'default_value': 'val'})):
     c = reg.contract(C, '_Configuration.declare', props=['C20'], name='_Configuration.declare[%s]' % variant, callsite=False)
     c.param('name', 'str').param('description', 'val{none,str}')
@@ -95,6 +102,111 @@ def register(reg):
     c.ensures('default_recorded', 'self._declarations[name].has_default == %s' % ('True' if kw else 'False'))
     c.ensures('holder_bound', 'result._declaration is self._declarations[name] and result._configuration is self')
     c.modifies('dict(self._declarations)')
+
+
+def acc(k, allow='_allow_undeclared', override='_override'):
+  return ('(({k} in self._declarations or {a}) and ({k} not in old(content(self._loaded_values)) or {o}))'
+          ).format(k=k, a=allow, o=override)
+
+
+def loaded_after(D, extra_guard='True', allow='_allow_undeclared', override='_override'):
+  """Statement's loading rule: contents of the loaded map after merging dictionary D into the old contents
+  (two clauses: which keys are loaded, and with which value)."""
+  take = '(k in {D} and {g} and {acc})'.format(D=D, g=extra_guard, acc=acc('k', allow, override))
+  dom = ('forall_key(lambda k: (k in self._loaded_values) == (k in old(content(self._loaded_values)) or {take}))'
+         ).format(take=take)
+  val = ('forall_key(lambda k: implies(k in self._loaded_values, same(self._loaded_values[k], '
+         '({D}[k].decode() if isinstance({D}[k], bytes) else {D}[k]) if {take} else old(content(self._loaded_values))[k])))'
+         ).format(D=D, take=take)
+  return dom, val
+
+
+def register_loading(reg):
+  c = reg.contract(C, '_Configuration.load_from_dict', props=['C20'])
+  c.param('dictionary', 'dict[str,val]').param('_override', 'bool').param('_allow_undeclared', 'bool')
+  c.requires('distinct_maps', 'dictionary is not self._loaded_values and dictionary is not self._declarations '
+             'and self._loaded_values is not self._declarations and self._flag_values is not self._loaded_values')
+  c.ensures('loading_rule_keys', loaded_after('dictionary')[0])
+  c.ensures('loading_rule_values', loaded_after('dictionary')[1])
+  c.ensures('same_map_object', 'self._loaded_values is old(self._loaded_values)')
+  c.ensures('declarations_and_flags_kept', 'content(self._declarations) == old(content(self._declarations)) and '
+            'content(self._flag_values) == old(content(self._flag_values))')
+  c.modifies('dict(self._loaded_values)')
+  c.loop('for (key, value) in dictionary.items()',
+         inv=[('keys_for_processed_prefix', loaded_after('dictionary', 'keypos(dictionary, k) < _i')[0]),
+              ('values_for_processed_prefix', loaded_after('dictionary', 'keypos(dictionary, k) < _i')[1]),
+              ('source_unchanged', 'content(dictionary) == old(content(dictionary))'),
+              ('declarations_kept', 'content(self._declarations) == old(content(self._declarations))')],
+         modifies=['dict(self._loaded_values)', 'list(undeclared_keys)'])
+
+
+def register_loading2(reg):
+  distinct = ('{d} is not self._loaded_values and {d} is not self._declarations and self._loaded_values is not '
+              'self._declarations and self._flag_values is not self._loaded_values')
+  c = reg.contract(C, '_Configuration.load', props=['C20'])
+  c.param('_override', 'bool').param('_allow_undeclared', 'bool').param('kwargs', 'dict[str,val]')
+  c.requires('distinct_maps', distinct.format(d='kwargs'))
+  c.ensures('loading_rule_keys', loaded_after('kwargs')[0]).ensures('loading_rule_values', loaded_after('kwargs')[1])
+  c.modifies('dict(self._loaded_values)')
+
+  c = reg.contract(C, '_Configuration.load_from_file', props=['C20'])
+  c.param('yamlfile', 'ref:file').param('_override', 'bool').param('_allow_undeclared', 'bool')
+  c.requires('distinct_maps', distinct.format(d='yaml_dict_of(yamlfile)'))
+  c.raises('ConfigurationInvalidError', ensures=[('nothing_loaded', 'content(self._loaded_values) == old(content(self._loaded_values))')])
+  c.ensures('loading_rule_keys', loaded_after('yaml_dict_of(yamlfile)')[0])
+  c.ensures('loading_rule_values', loaded_after('yaml_dict_of(yamlfile)')[1])
+  c.modifies('dict(self._loaded_values)')
+
+  # ---- _asdict: for declared keys the snapshot agrees with item access
+  D, L, F = 'self._declarations', 'self._loaded_values', 'self._flag_values'
+  c = reg.contract(C, '_Configuration._asdict', props=['C20'])
+  c.returns('dict[str,val]')
+  c.requires('distinct_maps', '%s is not %s and %s is not %s and %s is not %s' % (D, L, D, F, L, F))
+  c.ensures('declared_keys_present_iff_they_have_a_value',
+            'forall_key(lambda k: implies(k in %s, (k in result) == %s))' % (D, has_value('k')))
+  c.ensures('declared_keys_agree_with_item_access',
+            'forall_key(lambda k: implies(k in %s and k in result, same(result[k], %s)))' % (D, prec('k')))
+  c.ensures('maps_untouched', ' and '.join('content(%s) == old(content(%s))' % (x, x) for x in (D, L, F)))
+  c.modifies()
+  flagged = '(k in {F} and keypos({F}, k) < _i and k in {D})'.format(F=F, D=D)
+  c.loop('for (key, value) in self._flag_values.items()',
+         inv=[('keys', 'forall_key(lambda k: (k in retval) == ((k in {D} and {D}[k].has_default) or k in {L} or {fl}))'
+               .format(D=D, L=L, fl=flagged)),
+              ('values', 'forall_key(lambda k: implies(k in retval, same(retval[k], {F}[k] if {fl} else '
+               '({L}[k] if k in {L} else {D}[k].default_value))))'.format(D=D, L=L, F=F, fl=flagged)),
+              ('maps_untouched', ' and '.join('content(%s) == old(content(%s))' % (x, x) for x in (D, L, F))),
+              ('fresh_result', 'is_fresh(retval)')],
+         modifies=['dict(retval)'])
+
+  c = reg.contract(C, '_ConfigValueHolder.default', props=['C20'])
+  c.returns('val').modifies()
+  c.raises('DefaultNotDefinedError', when='not self._declaration.has_default')
+  c.ensures('declared_default', 'self._declaration.has_default and same(result, self._declaration.default_value)')
+
+  # ---- save_and_restore: the wrapper restores exactly the loaded values present when it was called
+  c = reg.contract(C, '_Configuration.save_and_restore._saving_wrapper', props=['C20'])
+  c.setup(_wrapper_closure)
+  restored = 'content(self._loaded_values) == old(content(self._loaded_values))'
+  c.requires('decoration_values_are_a_separate_dict', 'config_values is not self._loaded_values and config_values is not '
+             'self._declarations and self._loaded_values is not self._declarations and self._flag_values is not self._loaded_values')
+  c.ensures('restored_on_return', restored)
+  c.raises('Exception', ensures=[('restored_when_the_function_raises', restored)])
+  c.raises('BaseException', ensures=[('restored_when_the_function_raises', restored)])
+  c.modifies('*')
+
+
+def _wrapper_closure(ex, st, made):
+  """The closure of _saving_wrapper: self, the wrapped user function and the decoration-time config values."""
+  from pyvc.engine import VPyDict
+  from pyvc.values import VTuple, VCallable
+  self_ = ex.make_input(st, 'self', 'ref:_Configuration')
+  func = ex.make_input(st, '_func', 'fn:wrapped_function')
+  cfgv = ex.make_input(st, 'config_values', 'dict[str,val]')
+  st.assume(self_.t != 0)
+  made['$closure'] = {'self': self_, '_func': func, 'config_values': cfgv, '$module': ex.ctx.repo.module('openhtf.util.configuration')}
+  made['args'] = VTuple([])
+  made['kwargs'] = VPyDict({})
+  made['self'] = self_           # visible to the spec expressions
 
 
 def _const_field(name):
